@@ -3,7 +3,9 @@
                  os <width> <fill-hex> <l|r|i> <format-hex> <op>*      operator<< into a stream holding "pre:" with that pending width/fill/adjustment, then "!"
                  seq <format-hex> <op>* / <format-hex> <op>* / ...     (several formatters, one after the other)
                  exc <arg>+
-   arg = s<hex> | s- | i<dec> (long) | d<dec> (double, integer value) | b0 b1 (bool) | f<dec> (double z + 1/2)
+   arg = s<hex> | s- (const std::string&) | n<hex> (non-const lvalue: the caller's variable holding that text; the same text = the same
+         variable throughout the case) | r<hex> (temporary std::string) | l<hex> (const char*, NUL-free) | c<hex byte> (char)
+       | i<dec> (long) | d<dec> (double, integer value) | b0 b1 (bool) | f<dec> (double z + 1/2)
        | h<dec> x<dec> w<dec> t0 t1 (user types that leave hex / fixed+precision 2 / fill+left / boolalpha on the stream)
        | mhex mboolalpha mshowbase mshowpos muppercase mfixed mleft msetprecision<n> msetw<n> msetfill<hex byte> *)
 let z_of_dec (d : string) : z =
@@ -25,7 +27,9 @@ let parse_bool w = match w with "0" -> false | "1" -> true | _ -> failwith "bool
 let parse_arg (w : string) : arg =
   if w = "" then failwith "arg" else
   match w.[0] with
-  | 's' -> AStr (str_of_hex (tail w 1))
+  | 's' | 'n' | 'r' -> AStr (str_of_hex (tail w 1))   (* const lvalue / non-const lvalue variable / temporary: the same VALUE *)
+  | 'l' -> let s = str_of_hex (tail w 1) in if List.mem X00 s then failwith "literal" else AStr s   (* const char* *)
+  | 'c' -> (match str_of_hex (tail w 1) with [b] -> AStr [b] | _ -> failwith "char")                (* char *)
   | 'i' -> AInt (z_of_dec (tail w 1))
   | 'd' -> ADbl (z_of_dec (tail w 1))
   | 'b' -> ABool (parse_bool (tail w 1))
